@@ -58,9 +58,11 @@ class Oracle:
                 "cred_uid": int(f[12]), "cred_gid": int(f[13]), "auth_uid": int(f[14]), "auth_gid": int(f[15]),
                 "data_len": int(f[16]), "data": unh(f[17])}
 
-    def dec(self, cred, retry, uid, gid, now, members=()):
+    def dec(self, cred, retry, uid, gid, now, members=(), now2=None):
+        """now = the clock when the request is received (decode time, time-window check); now2 = the clock at the replay step
+        (dec_validate_replay reads it again after replay_insert); default: the clock has not moved (now2 = now)"""
         mem = ",".join("%d:%d" % p for p in members) or "-"
-        r = self.ask("DEC %s %d %d %d %d %s" % (vlib.hexs(cred), retry, uid, gid, now, mem)).split()
+        r = self.ask("DEC %s %d %d %d %d %s %d" % (vlib.hexs(cred), retry, uid, gid, now, mem, now if now2 is None else now2)).split()
         assert r[0] == "DEC", r
         return self._msg(r[1:])
 
@@ -112,7 +114,7 @@ class CredRig:
     # -- decode on both sides, compare all fields ------------------------------------------------------
     def decode_both(self, cred, uid=0, gid=0, retry=0, members=()):
         r, st = rig.decode(self.d.sock, cred, uid=uid, gid=gid, retry=retry)
-        m = self.o.dec(cred, retry, uid, gid, self.now, members)
+        m = self.o.dec(cred, retry, uid, gid, self.now, members, now2=self.now)      # the daemon's clock stands still during the request
         diff = None
         if r is None:
             diff = "daemon gave no reply (%s); model says error %d %r" % (st, m["error_num"], m["error_str"])
